@@ -13,7 +13,7 @@ import (
 func init() {
 	register(&Spec{ID: "C12", Title: "Logical channels are isolated and correctly routed under concurrency", Run: runC12,
 		Meta: core.Meta{
-			Explanation: "Lockset and routing rules; schedules are not explored. R12.1 (E-LOCK, guarded-by table confirmed by reading): Conn.tdsChannels is read only under tdsChannelsLock (R or W) and written only under W (objects under construction exempt); Conn.tdsChannelCurFreeId is touched only through sync/atomic or under W; Channel.closed is read under the channel's RWMutex and written under W; the hook slices are accessed under one mutex. The must-lockset is computed per function over SSA (Lock/RLock add, Unlock/RUnlock remove, deferred unlocks keep the lock to the exit, unexported callees inherit the meet over their call sites). R12.2: in Conn.ReadFrom the receiver of WritePacket is the comma-ok result of tdsChannels[int(packet.Header.Channel)] for the packet just read, and the !ok edge reports on Conn.errCh and continues. R12.3: sendPacket stamps Header.Channel from channelId and Header.PacketNr from curPacketNr on the channelId > 0 edge and advances curPacketNr by one modulo 2^bits(PacketNr). R12.4: NewChannel registers the channel under the id it stores in channelId; Close deletes that id under the write lock. R12.5: the set-up acknowledgement test in NewChannel uses a type assertion that some producer can satisfy and is followed by the PROTACK test. R12.6: WritePacket tests `closed` under the channel lock before it touches the queues. R12.4 also requires that the registration in tdsChannels dominates the sending of the set-up packet (the acknowledgement can be routed as soon as the packet is out).",
+			Explanation: "Lockset and routing rules; schedules are not explored. R12.1 (E-LOCK, guarded-by table confirmed by reading): Conn.tdsChannels is read only under tdsChannelsLock (R or W) and written only under W (objects under construction exempt); Conn.tdsChannelCurFreeId is touched only through sync/atomic or under W; Channel.closed is read under the channel's RWMutex and written under W; the hook slices are accessed under one mutex. The must-lockset is computed per function over SSA (Lock/RLock add, Unlock/RUnlock remove, deferred unlocks keep the lock to the exit, unexported callees inherit the meet over their call sites). R12.2: in Conn.ReadFrom the receiver of WritePacket is the comma-ok result of tdsChannels[int(packet.Header.Channel)] for the packet just read, and the !ok edge reports on Conn.errCh and continues. R12.3: sendPacket stamps Header.Channel from channelId and Header.PacketNr from curPacketNr on the channelId > 0 edge and advances curPacketNr by one modulo 2^bits(PacketNr). R12.4: NewChannel registers the channel under the id it stores in channelId; Close deletes that id under the write lock. R12.5: the set-up acknowledgement test in NewChannel uses a type assertion that some producer can satisfy and is followed by the PROTACK test. R12.7: the id returned by getValidChannelId is computed from the result of the atomic add on tdsChannelCurFreeId (or is the id of the recursive attempt) and the counter is never read by a separate atomic load. R12.8 = R01.7: Packet.WriteTo hands the serialised packet to the transport in exactly one Write (channels share the transport without a send lock; two writes let another channel's packet land between header and body). R12.6: WritePacket tests `closed` under the channel lock before it touches the queues. R12.4 also requires that the registration in tdsChannels dominates the sending of the set-up packet (the acknowledgement can be routed as soon as the packet is out).",
 			NotDecided:  "Interleavings and data races on fields used by one goroutine per channel by contract (curPacketNr, CurrentHeaderType, packetSize) are not decided; the race detector is another technique family.",
 			Assumptions: []string{"sync.RWMutex / sync/atomic semantics", "fields outside the guarded-by table are confined to one goroutine by the library's contract"},
 		}})
@@ -35,6 +35,8 @@ func runC12(r *core.Run) {
 	r.Rule("R12.4", "registration and removal use the channel's own id; registration precedes the set-up packet", 3, false)
 	r.Rule("R12.5", "logical channel set-up acknowledgement can be recognised", 2, false)
 	r.Rule("R12.6", "packets for a closed channel are dropped under the lock", 1, false)
+	r.Rule("R12.7", "an id is reserved in one atomic step", 1, false)
+	r.Rule("R12.8", "a packet reaches the shared transport in one Write call (R01.7)", 1, false)
 
 	table := []guardedField{
 		{p.Field("tds", "Conn", "tdsChannels"), "tdsChannelsLock", false, true},
@@ -49,6 +51,76 @@ func runC12(r *core.Run) {
 	c12Registration(r, la)
 	c12Setup(r)
 	c12ClosedCheck(r, la)
+	c12IdFromAdd(r)
+	c01SingleWrite(r, "R12.8")
+}
+
+// c12IdFromAdd: R12.7. A channel id is reserved in ONE atomic step: the id getValidChannelId hands out is computed
+// from the RESULT of the atomic add on tdsChannelCurFreeId, and the counter is never read by a separate atomic load
+// (two creators could load the same value before either adds).
+func c12IdFromAdd(r *core.Run) {
+	p := r.Prog
+	fn := p.Func("tds", "Conn", "getValidChannelId")
+	fCtr := p.Field("tds", "Conn", "tdsChannelCurFreeId")
+	isCtr := func(v ssa.Value) bool {
+		fa, ok := v.(*ssa.FieldAddr)
+		return ok && core.FieldOfAddr(fa) == fCtr
+	}
+	atomicOn := func(c ssa.CallInstruction, prefix string) bool {
+		f := core.StaticCallee(c)
+		return f != nil && f.Pkg != nil && f.Pkg.Pkg.Path() == "sync/atomic" && strings.HasPrefix(f.Name(), prefix) && len(c.Common().Args) > 0 && isCtr(c.Common().Args[0])
+	}
+	for _, f := range p.ModuleFuncs() {
+		for _, c := range core.Calls(f) {
+			if atomicOn(c, "Load") {
+				r.Bad("R12.7", core.FuncName(f)+": separate load of tdsChannelCurFreeId", c.Pos(), "the id counter is read with an atomic load of its own: read and advance are two steps, so two concurrent NewChannel calls can obtain the same id")
+			}
+		}
+	}
+	var fromAdd func(v ssa.Value, d int) bool
+	fromAdd = func(v ssa.Value, d int) bool {
+		if d > 8 {
+			return false
+		}
+		switch x := v.(type) {
+		case *ssa.Convert:
+			return fromAdd(x.X, d+1)
+		case *ssa.ChangeType:
+			return fromAdd(x.X, d+1)
+		case *ssa.BinOp:
+			if _, isC := core.ConstInt64(x.Y); isC && (x.Op == token.SUB || x.Op == token.ADD) {
+				return fromAdd(x.X, d+1)
+			}
+		case *ssa.Phi:
+			for _, e := range x.Edges {
+				if !fromAdd(e, d+1) {
+					return false
+				}
+			}
+			return len(x.Edges) > 0
+		case *ssa.Extract:
+			if c, ok := x.Tuple.(*ssa.Call); ok && core.StaticCallee(c) == fn {
+				return true // the id of the recursive attempt
+			}
+		case *ssa.Call:
+			return atomicOn(x, "Add")
+		}
+		return false
+	}
+	ok, n := true, 0
+	for _, ret := range core.Returns(fn) {
+		rv := core.RetVals(ret)
+		if len(rv) != 2 || !core.IsNil(rv[1]) {
+			continue
+		}
+		n++
+		if !fromAdd(rv[0], 0) {
+			ok = false
+		}
+	}
+	// a direct `return tds.getValidChannelId()` returns the call's tuple: accepted as the recursive attempt
+	r.Check(ok && n > 0, "R12.7", "getValidChannelId: the id is the result of the atomic add", fn.Pos(), "id = atomic.AddUint32(&tdsChannelCurFreeId, 1) - 1 (or the id of the recursive attempt)",
+		"the id handed out is not computed from the result of the atomic add on the counter: reserving an id is not one atomic step and two concurrent NewChannel calls can obtain the same id")
 }
 
 func c12Guarded(r *core.Run, la *lockAnalysis, table []guardedField) {
